@@ -426,17 +426,20 @@ def conversion(ctx):
     ctx.need(len(stop) == 1, 'conventional_to_primitive.dump: cps_uvws assignment not found')
     head = d.body[:stop[0] + 1]
 
+    options = []          # the keyword options every call of the basis test received
+
     def resolve(asked, truth, check=True):
         used, tested = [], []
 
         def csb(system, setting=None, **kw):
             tested.append(setting)
+            options.append(dict(kw))
             return setting == truth
         ev = SymEval(module_aliases(ctx.mod(C2P)))
         mil = SymObj(None, {}, 'miller')
         mil.attrs['vector_primitive_to_conventional'] = lambda m, setting=None: (used.append(setting), m)[1]
         pth = Path({'system': SymObj(None, {}, 'system'), 'setting': asked, 'smallshift': None, 'rtol': sp.Symbol('rtol'), 'atol': sp.Symbol('atol'), 'check_basis': check,
-                    'check_family': True, 'return_transform': False, 'check_setting_basis': csb, 'miller': mil})
+                    'check_family': sp.Symbol('check_family'), 'return_transform': False, 'check_setting_basis': csb, 'miller': mil})
         try:
             out = ev.block(head, [pth])
         except WouldRaise:
@@ -462,6 +465,10 @@ def conversion(ctx):
             bad.append('setting=t on a %s lattice: %s (expected %s)' % (truth, r, want))
     ctx.ob('CONVERSION', loc, 'the setting converted is the one asked for when the cell has that centering, the generic t resolves to whichever of t1 / t2 the cell has, and any other combination is refused',
            not bad, '; '.join(bad[:4]), node=d, key='setting resolution')
+    want_opts = {'rtol': sp.Symbol('rtol'), 'atol': sp.Symbol('atol'), 'check_family': sp.Symbol('check_family')}
+    wrong = [o for o in options if any(o.get(k_) != v_ for k_, v_ in want_opts.items())]
+    ctx.ob('CONVERSION', loc, 'every call of the basis test receives the caller\'s tolerances and check_family option (explicit settings and the generic t alike)',
+           bool(options) and not wrong, 'a call received %s' % ({k_: str(v_) for k_, v_ in wrong[0].items()} if wrong else None), node=d, key='basis test options')
     d2 = ctx.fn(P2C, 'dump')
     c = [x for x in calls_in(d2) if norm(x.func) == 'miller.vector_conventional_to_primitive']
     ok = len(c) == 1 and norm(c[0].args[0]) in ('np.identity(3)', 'np.eye(3)') and norm(kwarg(c[0], 'setting', 1)) == 'setting'
